@@ -1799,7 +1799,7 @@ func (patternMatchingSelf PatternMatching) MatchFor(inValue interface{}) interfa
 		maybe := Maybe.Just(inValue)
 		if maybe.IsKind(reflect.Ptr) {
 			ptr := maybe.ToPtr()
-			if reflect.TypeOf(*ptr).Kind() == (reflect.TypeOf(CompData{}).Kind()) {
+			if reflect.TypeOf(*ptr) == reflect.TypeOf(CompData{}) {
 				value = *ptr
 			}
 		}
@@ -1823,7 +1823,7 @@ func (patternSelf KindPatternDef) Matches(value interface{}) bool {
 
 // Matches Match the given value by the pattern
 func (patternSelf CompTypePatternDef) Matches(value interface{}) bool {
-	if Maybe.Just(value).IsPresent() && reflect.TypeOf(value).Kind() == reflect.TypeOf(CompData{}).Kind() {
+	if Maybe.Just(value).IsPresent() && reflect.TypeOf(value) == reflect.TypeOf(CompData{}) {
 		return MatchCompType(patternSelf.compType, (value).(CompData))
 	}
 
